@@ -247,7 +247,8 @@ pub fn gen_train_world(rng: &mut Rng, plan: &mut Plan) {
             0..=3 => "0,0,0".to_string(),
             // both ids 0 but a cost: explicit parameters all the same
             4 => format!("0,0,{}", *rng.pick(&[-1500i64, -1, 1, 7, 32767])),
-            5 => format!("{},0,0", 1 + rng.below(2)),
+            // (explicit ids must exist in the model: id 1 always does)
+            5 => "1,0,0".to_string(),
             _ => format!("{},{},{}", rng.below(2), 1, rng.range(-500, 500)),
         };
         user.push(format!("{},{},{}", csv_quote(&s), params, f));
